@@ -278,8 +278,9 @@ namespace avel {
         typename std::enable_if<N < mask4x64f::width, int>::type dummy_variable = 0;
 
         #if defined(AVEL_AVX512VL) || defined(AVEL_AVX10_1)
-        auto mask = b << N;
-        return mask4x64f{__mmask8((decay(m) & ~mask) | mask)};
+        auto bit = std::uint64_t(1) << N;
+        auto mask = std::uint64_t(b) << N;
+        return mask4x64f{__mmask8((decay(m) & ~bit) | mask)};
 
         #elif defined(AVEL_AVX)
         auto ret = _mm256_blend_pd(decay(m), _mm256_castsi256_pd(_mm256_set1_epi64x(b ? -1ll : 0)), 1 << N);
